@@ -433,6 +433,12 @@ var hdTargets = []mgTarget{
 	{"pkg/url/validator.go", "isRelativeURL", "isRelativeURL"},
 	{"pkg/url/validator.go", "isValidAbsolutePath", "isValidAbsolutePath"},
 	{"pkg/url/validator.go", "isAllowedDomain", "isAllowedDomain"},
+	{"pkg/handler/acr/acr.go", "Handler.Validate", "acrHandlerValidate"},
+	{"pkg/handler/acr/acr.go", "NewHandler", "acrNewHandler"},
+	{"pkg/ingress/ingress.go", "Ingresses.MatchingIngress", "matchingIngress"},
+	{"pkg/ingress/ingress.go", "Ingresses.MatchingPath", "matchingPath"},
+	{"pkg/ingress/ingress.go", "ParseIngress", "parseIngress"},
+	{"pkg/ingress/ingress.go", "mustScheme", "mustScheme"},
 }
 
 func genManager() {
